@@ -78,52 +78,171 @@ func globalsDump() string {
 	return sb.String()
 }
 
-// shallowGlobals saves the memory of every package-level variable (not what it points to) so that every
-// execution can start from the initial package state (lazily filled caches are then "first use" in every
-// schedule) and any write to a package-level variable is seen by a cheap byte comparison.
+// shallowGlobals (historical name) saves the package-level state in depth and in place: the memory of every
+// package-level variable and of everything reachable from it through pointers, slices (whole backing
+// arrays) and interfaces holding pointers is recorded as a list of typed regions. restore writes every
+// region back (typed copies, so pointer identities inside the package state stay exactly as they were),
+// which makes every execution start from the initial package state - a lazily built table is "first use"
+// in every schedule - and changed compares the regions byte-wise, so any write to package-level state,
+// direct or behind pointers, is seen after every execution. Objects allocated during an execution are
+// not part of the graph: they become unreachable when the pointers leading to them are restored.
 type shallowGlobals struct {
-	names []string
-	ptrs  []reflect.Value // pointers to the variables
-	saved []reflect.Value // copies of their initial values
+	names   []string        // region -> name of the package-level variable it was reached from
+	ptrs    []reflect.Value // pointers to the regions
+	saved   []reflect.Value // addressable copies of their initial contents
+	visited map[regionKey]bool
+	maps    []savedMap
+}
+
+type regionKey struct {
+	addr uintptr
+	typ  reflect.Type
+}
+
+type savedMap struct {
+	name    string
+	m       reflect.Value // the live map
+	entries [][2]reflect.Value
 }
 
 func saveGlobals() *shallowGlobals {
 	g := apd.VerifGlobals()
-	sg := &shallowGlobals{}
+	sg := &shallowGlobals{visited: map[regionKey]bool{}}
+	var ks []string
 	for k := range g {
-		sg.names = append(sg.names, k)
+		ks = append(ks, k)
 	}
-	sort.Strings(sg.names)
-	for _, k := range sg.names {
-		p := reflect.ValueOf(g[k])
-		c := reflect.New(p.Elem().Type()).Elem()
-		c.Set(p.Elem())
-		sg.ptrs = append(sg.ptrs, p)
-		sg.saved = append(sg.saved, c)
+	sort.Strings(ks)
+	for _, k := range ks {
+		sg.region(k, reflect.ValueOf(g[k]))
 	}
 	return sg
+}
+
+// region records the memory p points to and walks what it references.
+func (sg *shallowGlobals) region(name string, p reflect.Value) {
+	if p.IsNil() {
+		return
+	}
+	t := p.Type().Elem()
+	if t.Size() == 0 {
+		return
+	}
+	key := regionKey{p.Pointer(), t}
+	if sg.visited[key] {
+		return
+	}
+	sg.visited[key] = true
+	c := reflect.New(t).Elem()
+	c.Set(p.Elem())
+	sg.names = append(sg.names, name)
+	sg.ptrs = append(sg.ptrs, p)
+	sg.saved = append(sg.saved, c)
+	sg.walk(name, p.Elem())
+}
+
+// clean returns v without the read-only mark of unexported fields (v is addressable).
+func clean(v reflect.Value) reflect.Value {
+	return reflect.NewAt(v.Type(), unsafe.Pointer(v.UnsafeAddr())).Elem()
+}
+
+func (sg *shallowGlobals) walk(name string, v reflect.Value) {
+	switch v.Kind() {
+	case reflect.Ptr:
+		if !v.IsNil() {
+			sg.region(name, clean(v))
+		}
+	case reflect.Struct:
+		for i := 0; i < v.NumField(); i++ {
+			sg.walk(name, v.Field(i))
+		}
+	case reflect.Array:
+		if !hasRefs(v.Type().Elem()) {
+			return
+		}
+		for i := 0; i < v.Len(); i++ {
+			sg.walk(name, v.Index(i))
+		}
+	case reflect.Slice:
+		if v.IsNil() || v.Cap() == 0 {
+			return
+		}
+		full := clean(v).Slice3(0, v.Cap(), v.Cap())
+		arr := reflect.NewAt(reflect.ArrayOf(v.Cap(), v.Type().Elem()), unsafe.Pointer(full.Pointer()))
+		sg.region(name, arr)
+	case reflect.Interface:
+		if !v.IsNil() && v.Elem().Kind() == reflect.Ptr {
+			sg.region(name, clean(v).Elem())
+		}
+	case reflect.Map:
+		if v.IsNil() {
+			return
+		}
+		sm := savedMap{name: name, m: clean(v)}
+		it := sm.m.MapRange()
+		for it.Next() {
+			sm.entries = append(sm.entries, [2]reflect.Value{it.Key(), it.Value()})
+			if it.Value().Kind() == reflect.Ptr && !it.Value().IsNil() {
+				sg.region(name, it.Value())
+			}
+		}
+		sg.maps = append(sg.maps, sm)
+	}
+}
+
+func hasRefs(t reflect.Type) bool {
+	switch t.Kind() {
+	case reflect.Ptr, reflect.Slice, reflect.Interface, reflect.Map, reflect.String, reflect.Func, reflect.Chan, reflect.UnsafePointer:
+		return true
+	case reflect.Struct:
+		for i := 0; i < t.NumField(); i++ {
+			if hasRefs(t.Field(i).Type) {
+				return true
+			}
+		}
+		return false
+	case reflect.Array:
+		return hasRefs(t.Elem())
+	}
+	return false
 }
 
 func (sg *shallowGlobals) restore() {
 	for i, p := range sg.ptrs {
 		p.Elem().Set(sg.saved[i])
 	}
+	for _, sm := range sg.maps {
+		if sm.m.Len() != len(sm.entries) {
+			for _, k := range sm.m.MapKeys() {
+				sm.m.SetMapIndex(k, reflect.Value{})
+			}
+		}
+		for _, e := range sm.entries {
+			sm.m.SetMapIndex(e[0], e[1])
+		}
+	}
 }
 
-// changed returns the name of a package-level variable whose own memory differs from the saved copy.
+// changed returns the name of a package-level variable whose memory, or memory reachable from it, differs
+// from the saved initial state.
 func (sg *shallowGlobals) changed() string {
 	for i, p := range sg.ptrs {
-		if p.Elem().Kind() == reflect.Map || p.Elem().Kind() == reflect.Func {
-			if p.Elem().Pointer() != sg.saved[i].Pointer() {
-				return sg.names[i]
-			}
-			continue
-		}
-		n := p.Elem().Type().Size()
+		n := p.Type().Elem().Size()
 		a := unsafe.Slice((*byte)(unsafe.Pointer(p.Pointer())), n)
-		b := unsafe.Slice((*byte)(unsafe.Pointer(sg.saved[i].Addr().Pointer())), n)
+		b := unsafe.Slice((*byte)(unsafe.Pointer(sg.saved[i].UnsafeAddr())), n)
 		if !bytes.Equal(a, b) {
 			return sg.names[i]
+		}
+	}
+	for _, sm := range sg.maps {
+		if sm.m.Len() != len(sm.entries) {
+			return sm.name
+		}
+		for _, e := range sm.entries {
+			v := sm.m.MapIndex(e[0])
+			if !v.IsValid() || !reflect.DeepEqual(v.Interface(), e[1].Interface()) {
+				return sm.name
+			}
 		}
 	}
 	return ""
@@ -301,6 +420,10 @@ type c18Runner struct {
 	// forceGlobals: dump the package-level variables after this execution
 	forceGlobals bool
 	sg           *shallowGlobals
+	// allowed: deep dumps of the package-level state that an execution may end in: the initial state and the
+	// state after every sequential order of the scenario's threads (identical to the initial state as long
+	// as the package keeps no lazily built shared state)
+	allowed map[string]bool
 }
 
 func newRunner(sc c18Scenario, maxOcc int) *c18Runner {
@@ -309,6 +432,7 @@ func newRunner(sc c18Scenario, maxOcc int) *c18Runner {
 	r.s.MaxOcc = maxOcc
 	c18Sched = r.s
 	apd.VerifYield = r.s.Yield
+	apd.VerifBlock = r.s.Block
 	// solo baselines (scheduler inactive: Yield returns immediately)
 	for _, th := range sc.Threads {
 		var o []string
@@ -318,6 +442,17 @@ func newRunner(sc c18Scenario, maxOcc int) *c18Runner {
 		}
 		r.solo = append(r.solo, o)
 	}
+	r.allowed = map[string]bool{r.sh.init: true}
+	permute(len(sc.Threads), func(order []int) {
+		sg.restore()
+		for _, ti := range order {
+			for _, c := range sc.Threads[ti] {
+				c.f(r.sh)
+			}
+		}
+		r.allowed[r.sh.dump()] = true
+	})
+	sg.restore()
 	r.s.OnSwitch = func() {
 		if r.midBad == "" {
 			if d := r.sh.dumpLocal(); d != r.sh.initLocal {
@@ -326,6 +461,27 @@ func newRunner(sc c18Scenario, maxOcc int) *c18Runner {
 		}
 	}
 	return r
+}
+
+// permute calls f with every permutation of 0..n-1.
+func permute(n int, f func([]int)) {
+	idx := make([]int, n)
+	for i := range idx {
+		idx[i] = i
+	}
+	var rec func(k int)
+	rec = func(k int) {
+		if k == n {
+			f(append([]int{}, idx...))
+			return
+		}
+		for i := k; i < n; i++ {
+			idx[k], idx[i] = idx[i], idx[k]
+			rec(k + 1)
+			idx[k], idx[i] = idx[i], idx[k]
+		}
+	}
+	rec(0)
 }
 
 func firstDiff(a, b string) string {
@@ -390,16 +546,24 @@ func (r *c18Runner) verdict(err error) string {
 	if d := r.sh.dumpLocal(); d != r.sh.initLocal {
 		return "shared state (operands or Context) differs after the execution: " + firstDiff(r.sh.initLocal, d)
 	}
-	if name := r.sg.changed(); name != "" {
-		return "package-level variable " + name + " was written during the execution (its memory differs from the initial state)"
-	}
-	// what the package-level variables point to (lookup tables of hundreds of big integers) is dumped after every 256th
-	// execution and at the end of each exploration: a modification persists across executions, so it is
-	// detected at the next dump (the report then names the last schedule, not necessarily the culprit)
+	// package-level state: an execution must end in the initial state or in the state some sequential order of
+	// the same calls ends in (a correctly synchronised lazily built table passes, a table damaged by racing
+	// initialisers does not). What the variables point to (lookup tables of hundreds of big integers) is
+	// dumped whenever a variable's own memory changed, after every 256th execution and at the end of each
+	// exploration: a modification behind pointers persists across executions, so it is detected at the next
+	// dump (the report then names the last schedule, not necessarily the culprit).
 	r.nexec++
-	if r.nexec%256 == 1 || r.forceGlobals {
-		if d := r.sh.dump(); d != r.sh.init {
-			return "package-level variables differ from their initial state: " + firstDiff(r.sh.init, d)
+	name := r.sg.changed()
+	if name != "" || r.nexec%256 == 1 || r.forceGlobals {
+		if d := r.sh.dump(); !r.allowed[d] {
+			what := "package-level variables differ from their initial state"
+			if name != "" {
+				what = "package-level variable " + name + " was written during the execution and the package-level state"
+			}
+			if len(r.allowed) > 1 {
+				what += " (and from the state after every sequential order of the same calls)"
+			}
+			return what + ": " + firstDiff(r.sh.init, d)
 		}
 	}
 	return ""
@@ -424,7 +588,7 @@ func c18Run(e *core.Env) {
 		panic(err)
 	}
 	runtime.GOMAXPROCS(1)
-	defer func() { apd.VerifYield = nil }()
+	defer func() { apd.VerifYield, apd.VerifBlock = nil, nil }()
 	scs := c18Scenarios()
 	if e.R.Extra == nil {
 		e.R.Extra = map[string]interface{}{}
@@ -527,7 +691,7 @@ func trimZeros(s []int) []int {
 
 // c18FreeRun runs every scenario with real parallel goroutines (used by the -race binary).
 func C18FreeRun(reps int) int {
-	apd.VerifYield = nil
+	apd.VerifYield, apd.VerifBlock = nil, nil
 	c18Sched = nil
 	bad := 0
 	for _, sc := range c18Scenarios() {
@@ -621,7 +785,7 @@ func c18Replay(kind string, raw json.RawMessage) string {
 		return err.Error()
 	}
 	runtime.GOMAXPROCS(1)
-	defer func() { apd.VerifYield = nil }()
+	defer func() { apd.VerifYield, apd.VerifBlock = nil, nil }()
 	for _, sc := range c18Scenarios() {
 		if sc.Name != c.Scenario {
 			continue
@@ -646,7 +810,7 @@ func init() {
 	core.Register(&core.Prop{
 		ID:    "C18",
 		Title: "A Context and its operands can be shared by concurrent goroutines",
-		Rule:  "stateless model checking of the real code under a cooperative scheduler: 2-3 goroutines x 1-2 calls sharing one *Context and the same operand Decimals; every schedule within the preemption bound at statement-level scheduling points of the instrumented overlay is executed; per schedule every thread's result must equal its solo result and the deep snapshot of shared operands, Context and every package-level variable must be unchanged at every baton switch and at the end; plus a separate free-running -race pass over the same bodies",
+		Rule:  "stateless model checking of the real code under a cooperative scheduler: 2-3 goroutines x 1-2 calls sharing one *Context and the same operand Decimals; every schedule within the preemption bound at statement-level scheduling points of the instrumented overlay is executed; per schedule every thread's result must equal its solo result the deep snapshot of shared operands and Context must be unchanged at every baton switch and at the end, and the package-level state (every variable and everything reachable from it, restored in place before every execution) must end in the initial state or in the state some sequential order of the same calls ends in; sync.Mutex/RWMutex/Once block through the scheduler (no enabled thread = deadlock = violation); plus a separate free-running -race pass over the same bodies",
 		Bounds: func(tier string) string {
 			return fmt.Sprintf("%d scenarios; cheap scenarios: every dynamic scheduling point, preemption bound 1-2 (thorough 2); composite scenarios (Sqrt, Ln, Log10, Exp, Cbrt, Pow): every scheduling site at its first 2 (thorough 4) dynamic occurrences per thread, preemption bound 1; race pass: 300 (thorough 2000) free-running repetitions per scenario on 16 OS threads", len(c18Scenarios()))
 		},
@@ -655,7 +819,7 @@ func init() {
 		Shadow: true,
 		Assumptions: []string{
 			"statement-granularity sequential consistency; weak-memory effects are left to the race detector pass",
-			"T <= 3 goroutines, <= 2 calls each; the general claim rests on: no shared location is ever written (checked) => all interleavings are equivalent to the sequential one",
+			"T <= 3 goroutines, <= 2 calls each; the general claim rests on: no shared location is ever written (checked on the current tree: the set of admissible final package states has one element) => all interleavings are equivalent to the sequential one",
 		},
 	})
 }
